@@ -5,6 +5,7 @@ numba deviates from Python in documented ways only: array indices are not checke
 compiled signatures are typed (dtype / layout), module globals are frozen at compile time.
 This file collects the *obligations* under which those deviations are unobservable, for the
 kernels that are modelled; they are corollaries of the theorems of the owning properties.
+The last section states index safety of the four-row simplex arrays of the GJK (Jolt, libccd) and MPR kernels.
 Everything else in C20 is the two-engine differential of harness/props/c20.py (labelled
 "differential testing" in the evidence; not a proof).
 -/
@@ -12,6 +13,8 @@ import D3.Properties.C05
 import D3.Properties.C05Insert
 import D3.Properties.C14
 import D3.Properties.C15
+import D3.Properties.C02Link
+import D3.Model.MprPen
 
 namespace D3
 namespace C20
@@ -88,6 +91,564 @@ theorem halfplane_buffer_index_safe (hps : List (Hydro.HP ℝ)) :
     ∃ res, Hydro.intersectHalfplanes hps = .ok res :=
   let ⟨res, h, _⟩ := C15.halfplane_buffer_never_overflows hps
   ⟨res, h⟩
+
+end C20
+end D3
+
+/-! ## index safety of the simplex arrays of the GJK / MPR kernels
+
+`epa.py` and `gjk/_gjk_original.py` contain no compiled code (no `numba` decorator): both engines interpret
+them, so they carry no index-safety obligation for C20. -/
+
+namespace D3
+namespace C20
+
+section JoltSimplex
+open IsectJolt Isect
+open GjkJolt (A4)
+
+/-- **index safety of the simplex array of `gjk_intersection_jolt`.**  `Y` is allocated once with four
+rows (`np.empty((4, 3))`) and `_intersection_loop` writes the new support point to row `n_points` without
+any test of its own.  In every loop state reachable by `gjk_intersection_jolt` (every simplex handed to the
+solver on the way being outside the C18 bands, `VisitedGood JoltGood`) the array still has four rows and the
+write index satisfies `n < 4`: the unchecked compiled store `Y[n_points] = w` hits an existing row, exactly
+the row the interpreted engine writes.  Corollary of the loop invariant `C02.jolt_inv_reachable`. -/
+theorem jolt_simplex_index_safe {A B : V → Prop} {sA sB : V → V} (S : C02.JoltPair A B sA sB) {tol : ℝ}
+    (hvis : VisitedGood Gjk.JoltGood sA sB (tol * tol) lstate0) {st : LState}
+    (hreach : Reach sA sB (tol * tol) lstate0 st) :
+    st.Y.size = 4 ∧ st.n < 4 ∧ st.n < st.Y.size := by
+  obtain ⟨Y, hY, hinv⟩ := C02.jolt_inv_reachable S hvis st hreach
+  have hsz : st.Y.size = 4 := by rw [hY]; rfl
+  have := hinv.n3
+  exact ⟨hsz, by omega, by omega⟩
+
+/-- **… and of everything else the call touches.**  In every such state the next call of
+`_intersection_loop` returns normally — in the model every read and write of `Y` (the store at row `n`,
+the solver's reads of rows `0 … n`, `max_y_length_squared`, the compaction loop of `update_simplex_y`) is
+checked and reports `indexOOB` — and the point count it returns is at most four (`n + 1` on the exits,
+at most three when the loop continues). -/
+theorem jolt_simplex_step_index_safe {A B : V → Prop} {sA sB : V → V} (S : C02.JoltPair A B sA sB)
+    {tol : ℝ} (hvis : VisitedGood Gjk.JoltGood sA sB (tol * tol) lstate0) {st : LState}
+    (hreach : Reach sA sB (tol * tol) lstate0 st) :
+    ∃ s, intersectionLoop (sA st.dir) (sB (-st.dir)) st.Y st.n (tol * tol) st.prev st.dir = .ok s ∧
+      s.nPoints ≤ 4 ∧ (s.state = .unknown → s.Y.size = 4 ∧ s.nPoints < 4) := by
+  obtain ⟨s, hs⟩ := C02.jolt_fn_step_no_failure S hvis hreach
+  obtain ⟨_, hn, _⟩ := jolt_simplex_index_safe S hvis hreach
+  refine ⟨s, hs, ?_, ?_⟩
+  · by_cases hu : s.state = .unknown
+    · have := (jolt_simplex_index_safe S hvis (Reach.step hreach hs hu)).2.1
+      show s.next.n ≤ 4
+      omega
+    · rcases step_cases hs with ⟨_, rfl⟩ | ⟨_, _, r, _, hcase⟩
+      · show st.n ≤ 4; omega
+      rcases hcase with ⟨_, rfl⟩ | ⟨_, _, rfl⟩ | ⟨_, _, _, rfl⟩ | ⟨_, _, _, m, _, hcase⟩
+      · show st.n + 1 ≤ 4; omega
+      · show st.n + 1 ≤ 4; omega
+      · show st.n + 1 ≤ 4; omega
+      rcases hcase with ⟨_, rfl⟩ | ⟨_, _, hcase⟩
+      · show st.n + 1 ≤ 4; omega
+      rcases hcase with ⟨_, rfl⟩ | ⟨_, Y2, n2, _, rfl⟩
+      · show st.n + 1 ≤ 4; omega
+      · exact absurd rfl hu
+  · intro hu
+    obtain ⟨h1, h2, _⟩ := jolt_simplex_index_safe S hvis (Reach.step hreach hs hu)
+    exact ⟨h1, h2⟩
+
+/-- the hypotheses are satisfiable, all of them discharged: two cubes `[-1,1]³` (`C02.cube_pair`,
+`C02.cube_visitedGood`); the initial loop variables are a reachable state with four rows and `n = 0` -/
+example (tol : ℝ) : lstate0.Y.size = 4 ∧ lstate0.n < 4 ∧ lstate0.n < lstate0.Y.size :=
+  jolt_simplex_index_safe C02.cube_pair (C02.cube_visitedGood tol) Reach.init
+
+example (tol : ℝ) : ∃ s, intersectionLoop (C02.cubeSup lstate0.dir) (C02.cubeSup (-lstate0.dir)) lstate0.Y
+    lstate0.n (tol * tol) lstate0.prev lstate0.dir = .ok s ∧ s.nPoints ≤ 4 ∧
+    (s.state = .unknown → s.Y.size = 4 ∧ s.nPoints < 4) :=
+  jolt_simplex_step_index_safe C02.cube_pair (C02.cube_visitedGood tol) Reach.init
+
+end JoltSimplex
+
+section JoltDistanceSimplex
+open Gjk GjkJolt
+
+/-- the loop invariant of `gjk_distance_jolt` (`Stored … 3`: `n_points ≤ 3`, `Yᵢ = Pᵢ − Qᵢ`; `Running`) in
+every reachable state under `VisitedGood` — the induction of `Gjk.reach_inv` with the hypothesis of the
+function-level theorems of C01 -/
+theorem jolt_distance_reach_inv {A B : V → Prop} {sA sB : V → V} (S : C01.JoltSetup A B sA sB)
+    {tolerance maxD : ℝ} {y0 : A4 V}
+    (hvis : VisitedGood JoltGood joltSolver sA sB (tolerance * tolerance) maxD (gjkInit y0))
+    {st : State ℝ} (hreach : Reach joltSolver sA sB (tolerance * tolerance) maxD (gjkInit y0) st) :
+    Stored A B st 3 ∧ Running (tolerance * tolerance) st (sA st.sd - sB (-st.sd)) ∧ st.sd ≠ zeroV := by
+  induction hreach with
+  | init => exact ⟨stored_init A B y0, Or.inr ⟨isInit_init y0, S.fin⟩, e1_ne_zero⟩
+  | @step st out hreach hstep hunk ih =>
+    obtain ⟨hst, hrun, hsd⟩ := ih
+    have hnegsd : -st.sd ≠ zeroV := by
+      intro h0; apply hsd
+      have hx := congrArg V3.x h0; have hy := congrArg V3.y h0; have hz := congrArg V3.z h0
+      simp at hx hy hz
+      apply V3.ext' <;> simp <;> linarith
+    obtain ⟨x, v', hinv⟩ := step_inv joltSolver_spec (mul_self_nonneg tolerance) hst hrun
+      (S.supA _ hsd).1 (S.supB _ hnegsd).1 (hvis st hreach) hstep (by rw [hunk]; simp)
+    rcases hinv.exits with ⟨hg, _⟩ | ⟨hg, _⟩ | ⟨_, hsto, hcur, _⟩
+    · rw [hunk] at hg; exact GjkState.noConfusion hg
+    · rw [hunk] at hg; exact GjkState.noConfusion hg
+    · refine ⟨hsto, Or.inl ⟨x, hcur⟩, ?_⟩
+      obtain ⟨hsdx, _, hv, _, htl, _⟩ := hcur
+      apply ne_zero_of_normSq_pos
+      rw [hsdx, normSq_neg_one_smul, ← hv]
+      linarith [mul_self_nonneg tolerance]
+
+/-- **index safety of the simplex arrays `Y`, `P`, `Q` of `gjk_distance_jolt`.**  The three arrays have four
+rows (the model type `A4`: every read and write is checked and reports `indexOOB`); `_distance_loop` writes
+the support points to row `n_points` of all three.  In every loop state reachable by `gjk_distance_jolt`
+with the real simplex solver (every simplex handed to the solver being outside the C18 bands) the write
+index satisfies `n < 4`, and the three stores succeed: the unchecked compiled stores hit existing rows. -/
+theorem jolt_distance_simplex_index_safe {A B : V → Prop} {sA sB : V → V} (S : C01.JoltSetup A B sA sB)
+    {tolerance maxD : ℝ} {y0 : A4 V}
+    (hvis : VisitedGood JoltGood joltSolver sA sB (tolerance * tolerance) maxD (gjkInit y0))
+    {st : State ℝ} (hreach : Reach joltSolver sA sB (tolerance * tolerance) maxD (gjkInit y0) st) :
+    st.nPoints < 4 ∧ ∃ Y1 P1 Q1, st.Y.set st.nPoints (sA st.sd - sB (-st.sd)) = .ok Y1 ∧
+      st.P.set st.nPoints (sA st.sd) = .ok P1 ∧ st.Q.set st.nPoints (sB (-st.sd)) = .ok Q1 := by
+  have hn : st.nPoints ≤ 3 := (jolt_distance_reach_inv S hvis hreach).1.1
+  obtain ⟨Y1, hY⟩ := set_ok st.Y st.nPoints (sA st.sd - sB (-st.sd)) hn
+  obtain ⟨P1, hP⟩ := set_ok st.P st.nPoints (sA st.sd) hn
+  obtain ⟨Q1, hQ⟩ := set_ok st.Q st.nPoints (sB (-st.sd)) hn
+  exact ⟨by omega, Y1, P1, Q1, hY, hP, hQ⟩
+
+/-- **… and of everything else the call touches.**  In every such state the next call of `_distance_loop`
+returns normally (the stores, the solver's reads, `update_simplex_ypq`, `max_y_length_squared` are all
+checked in the model), and the point count it returns — the `n_points` that `calculate_closest_points`
+then uses to read rows `0 … n_points - 1` of `Y`, `P`, `Q` — is at most four. -/
+theorem jolt_distance_step_index_safe {A B : V → Prop} {sA sB : V → V} (S : C01.JoltSetup A B sA sB)
+    {tolerance maxD : ℝ} {y0 : A4 V}
+    (hvis : VisitedGood JoltGood joltSolver sA sB (tolerance * tolerance) maxD (gjkInit y0))
+    {st : State ℝ} (hreach : Reach joltSolver sA sB (tolerance * tolerance) maxD (gjkInit y0) st) :
+    ∃ out, distanceLoopStep joltSolver (sA st.sd) (sB (-st.sd)) st (tolerance * tolerance) maxD = .ok out ∧
+      out.st.nPoints ≤ 4 ∧ (out.gs = .unknown → out.st.nPoints < 4) := by
+  obtain ⟨hst, hrun, hsd⟩ := jolt_distance_reach_inv S hvis hreach
+  obtain ⟨out, hout⟩ := C01.jolt_step_no_failure (maxD := maxD) hst hrun (hvis st hreach)
+  refine ⟨out, hout, ?_, ?_⟩
+  · by_cases hc : out.gs = .clipped
+    · have := hst.1
+      rcases Gjk.step_cases hout with ⟨_, rfl⟩ | ⟨_, _, _, _, _, _, _, _, _, hcase⟩
+      · show st.nPoints ≤ 4; omega
+      · rcases hcase with ⟨_, ht⟩ | ⟨_, ht⟩ <;> exact absurd hc (stepTail_ne_clipped ht)
+    · have hnegsd : -st.sd ≠ zeroV := by
+        intro h0; apply hsd
+        have hx := congrArg V3.x h0; have hy := congrArg V3.y h0; have hz := congrArg V3.z h0
+        simp at hx hy hz
+        apply V3.ext' <;> simp <;> linarith
+      obtain ⟨x, v', hinv⟩ := step_inv joltSolver_spec (mul_self_nonneg tolerance) hst hrun
+        (S.supA _ hsd).1 (S.supB _ hnegsd).1 (hvis st hreach) hout hc
+      exact hinv.stored.1
+  · intro hu
+    have := (jolt_distance_reach_inv S hvis (Reach.step hreach hout hu)).1.1
+    omega
+
+/-- the hypotheses are satisfiable, all of them discharged: the one-point sets `{(2,0,0)}`, `{0}`
+(`C01.two_points_setup`, `C01.two_points_visitedGood`), initial state -/
+example (y0 : A4 V) (maxD : ℝ) : (gjkInit (α := ℝ) y0).nPoints < 4 := by
+  have hfin : V3.normSq ((⟨2, 0, 0⟩ : V) - ⟨0, 0, 0⟩) < (1 - EPS) * MAXF := by
+    simp only [V3.normSq_def, V3.sub_x, V3.sub_y, V3.sub_z, EPS, MAXF, D3.Gen.utils__EPSILON,
+      D3.Gen.utils__MAX_FLOAT]
+    norm_num
+  exact (jolt_distance_simplex_index_safe (tolerance := 1e-10) (maxD := maxD)
+    (C01.two_points_setup _ _ hfin)
+    (C01.two_points_visitedGood _ _ hfin (mul_self_nonneg _) y0) Reach.init).1
+
+end JoltDistanceSimplex
+
+section JoltBits
+open Simplex
+
+/-- set bits of the Voronoi cascade of `closest_point_triangle`: between 1 and 7 whenever it returns -/
+theorem jolt_regions_set {a b c n : V3 ℝ} {r : CP ℝ}
+    (h : closestPointTriangleRegions a b c n = .ok r) : 1 ≤ r.set ∧ r.set ≤ 7 := by
+  unfold closestPointTriangleRegions at h
+  simp only [bind, Except.bind] at h
+  repeat' split at h
+  all_goals (try cases h)
+  all_goals (constructor <;> norm_num)
+
+/-- set bits of the collinear fallback of `closest_point_triangle`: between 1 and 7 whenever it returns -/
+theorem jolt_degenerate_set {a b c : V3 ℝ} {r : CP ℝ}
+    (h : closestPointTriangleDegenerate a b c = .ok r) : 1 ≤ r.set ∧ r.set ≤ 7 := by
+  unfold closestPointTriangleDegenerate at h
+  simp only [bind, Except.bind] at h
+  split at h
+  · cases h
+  rename_i r1 h1
+  split at h
+  · cases h
+  rename_i r2 h2
+  split at h
+  · cases h
+  rename_i r3 h3
+  have s1 := closestPointLine_set _ _ h1
+  have s2 := closestPointLine_set _ _ h2
+  have s3 := closestPointLine_set _ _ h3
+  repeat' split at h
+  all_goals (try cases h)
+  all_goals (simp only []; rcases s1 with s1 | s1 | s1 <;> rcases s2 with s2 | s2 | s2 <;>
+    rcases s3 with s3 | s3 | s3 <;> simp [s1, s2, s3])
+
+
+/-- set bits of `closest_point_triangle`: between 1 and 7 whenever it returns (no band hypothesis) -/
+theorem jolt_triangle_set {a b c : V3 ℝ} {r : CP ℝ}
+    (h : closestPointTriangle a b c = .ok r) : 1 ≤ r.set ∧ r.set ≤ 7 := by
+  unfold closestPointTriangle at h
+  simp only at h
+  split at h
+  · exact jolt_degenerate_set h
+  · exact jolt_regions_set h
+
+/-- the three feature-set remappings of `closest_point_tetrahedron` map `1 … 7` into `1 … 15` -/
+theorem jolt_remap_bounds (s : Nat) (h1 : 1 ≤ s) (h7 : s ≤ 7) :
+    (1 ≤ remapACD s ∧ remapACD s < 16) ∧ (1 ≤ remapADB s ∧ remapADB s < 16) ∧
+    (1 ≤ remapBDC s ∧ remapBDC s < 16) := by
+  interval_cases s <;> decide
+
+/-- one face block of `closest_point_tetrahedron` keeps the set bits in `1 … 15` -/
+theorem jolt_tetStep_set {o : Bool} {p q r : V3 ℝ} {remap : Nat → Nat} {win : Nat} {ub : Bool}
+    {st st' : TetState ℝ} (hremap : ∀ s, 1 ≤ s → s ≤ 7 → 1 ≤ remap s ∧ remap s < 16)
+    (hst : 1 ≤ st.set ∧ st.set < 16) (h : tetStep o p q r remap win ub st = .ok st') :
+    1 ≤ st'.set ∧ st'.set < 16 := by
+  unfold tetStep at h
+  simp only [bind, Except.bind, pure, Except.pure] at h
+  repeat' split at h
+  all_goals (try cases h)
+  all_goals first
+    | exact hst
+    | (have := jolt_triangle_set ‹closestPointTriangle (α := ℝ) _ _ _ = Except.ok _›
+       exact hremap _ this.1 this.2)
+
+/-- set bits of `closest_point_tetrahedron`: between 1 and 15 whenever it returns (no band hypothesis) -/
+theorem jolt_tetrahedron_set {a b c d : V3 ℝ} {r : CP ℝ}
+    (h : closestPointTetrahedron a b c d = .ok r) : 1 ≤ r.set ∧ r.set < 16 := by
+  unfold closestPointTetrahedron at h
+  simp only [bind, Except.bind] at h
+  split at h
+  · cases h
+  rename_i st1 h1
+  split at h
+  · cases h
+  rename_i st2 h2
+  split at h
+  · cases h
+  rename_i st3 h3
+  split at h
+  · cases h
+  rename_i st4 h4
+  cases h
+  have b1 : 1 ≤ st1.set ∧ st1.set < 16 := by
+    unfold tetFirst at h1
+    simp only [bind, Except.bind, pure, Except.pure] at h1
+    repeat' split at h1
+    all_goals (try cases h1)
+    · have := jolt_triangle_set ‹closestPointTriangle (α := ℝ) _ _ _ = Except.ok _›
+      exact ⟨this.1, lt_of_le_of_lt this.2 (by norm_num)⟩
+    · decide
+  have b2 := jolt_tetStep_set (fun s a b => (jolt_remap_bounds s a b).1) b1 h2
+  have b3 := jolt_tetStep_set (fun s a b => (jolt_remap_bounds s a b).2.1) b2 h3
+  exact jolt_tetStep_set (fun s a b => (jolt_remap_bounds s a b).2.2) b3 h4
+
+/-- **the set bits of `get_closest_point_to_origin` are `< 2ⁿ`, for every input on which it returns** (inside
+the C18 bands too) -/
+theorem jolt_gcp_set_lt (Y : GjkJolt.A4 (V3 ℝ)) (n : Nat) (h1 : 1 ≤ n) (h4 : n ≤ 4) (prev : ℝ) {g : Gcp ℝ}
+    (h : getClosestPointToOrigin Y.toArray n prev = .ok g) : g.set < 2 ^ n := by
+  obtain ⟨y0, y1, y2, y3⟩ := Y
+  unfold getClosestPointToOrigin at h
+  cases hs : solveSimplex (GjkJolt.A4.toArray ⟨y0, y1, y2, y3⟩) n with
+  | error e => rw [hs] at h; cases h
+  | ok r =>
+    rw [hs] at h
+    simp only [Except.bind] at h
+    cases h
+    show r.set < 2 ^ n
+    unfold solveSimplex at hs
+    interval_cases n
+    · simp [rdY, GjkJolt.A4.toArray, bind, Except.bind, pure, Except.pure] at hs
+      cases hs; norm_num
+    · simp [rdY, GjkJolt.A4.toArray, bind, Except.bind] at hs
+      rcases closestPointLine_set _ _ hs with h | h | h <;> omega
+    · simp [rdY, GjkJolt.A4.toArray, bind, Except.bind] at hs
+      have := (jolt_triangle_set hs).2; omega
+    · simp [rdY, GjkJolt.A4.toArray, bind, Except.bind] at hs
+      have := (jolt_tetrahedron_set hs).2; omega
+
+end JoltBits
+
+section JoltUncond
+open IsectJolt Isect
+open GjkJolt (A4)
+
+/-- **index safety of the simplex array of `gjk_intersection_jolt`, every input.**  No hypothesis on the
+colliders, the support mappings or the tolerance, and no `VisitedGood`: in every loop state reachable from the
+initial one, `Y` still has four rows and the write index satisfies `n < 4`.  (`update_simplex_y` keeps at most
+three rows unless the solver reports `0xf`, and then the loop has already answered; the solver's set bits are
+`< 2ⁿ` on every input, `jolt_gcp_set_lt`.)  What the hypothesis-free statement does not give is that the call
+*returns* — inside the C18 bands the solver may raise `ZeroDivisionError`; that is `jolt_simplex_step_index_safe`. -/
+theorem jolt_simplex_index_safe_every_input (sA sB : V → V) (tolSq : ℝ) {st : LState}
+    (hreach : Reach sA sB tolSq lstate0 st) :
+    (∃ Y4 : A4 V, st.Y = Y4.toArray) ∧ st.Y.size = 4 ∧ st.n < 4 := by
+  suffices hkey : (∃ Y4 : A4 V, st.Y = Y4.toArray) ∧ st.n ≤ 3 by
+    obtain ⟨⟨Y4, hY⟩, hn⟩ := hkey
+    exact ⟨⟨Y4, hY⟩, by rw [hY]; rfl, by omega⟩
+  induction hreach with
+  | init => exact ⟨⟨⟨⟨0, 0, 0⟩, ⟨0, 0, 0⟩, ⟨0, 0, 0⟩, ⟨0, 0, 0⟩⟩, rfl⟩, by decide⟩
+  | @step st s hreach hstep hunk ih =>
+    obtain ⟨⟨Y4, hY⟩, hn⟩ := ih
+    rw [hY] at hstep
+    rcases step_cases hstep with ⟨_, rfl⟩ | ⟨_, _, r, hr, hcase⟩
+    · cases hunk
+    rcases hcase with ⟨_, rfl⟩ | ⟨_, _, rfl⟩ | ⟨_, _, _, rfl⟩ | ⟨_, hset, _, m, _, hcase⟩
+    · cases hunk
+    · cases hunk
+    · cases hunk
+    rcases hcase with ⟨_, rfl⟩ | ⟨_, _, hcase⟩
+    · cases hunk
+    rcases hcase with ⟨_, rfl⟩ | ⟨_, Y2, n2, hupd, rfl⟩
+    · cases hunk
+    obtain ⟨Y1, hY1⟩ := Gjk.set_ok Y4 st.n (sA st.dir - sB (-st.dir)) hn
+    rw [toArray_set hY1] at hr hupd
+    have hlt := jolt_gcp_set_lt Y1 (st.n + 1) (by omega) (by omega) st.prev hr
+    obtain ⟨Y2', k, hupd', _, _, hk3⟩ := updateY_spec Y1 (st.n + 1) (by omega) (by omega) r.set hlt
+    rw [hupd'] at hupd
+    cases hupd
+    exact ⟨⟨Y2', rfl⟩, hk3 hset⟩
+
+/-- every hypothesis is an input: the initial state of any run is reachable -/
+example (sA sB : V → V) (tolSq : ℝ) : lstate0.Y.size = 4 ∧ lstate0.n < 4 :=
+  (jolt_simplex_index_safe_every_input sA sB tolSq Reach.init).2
+
+end JoltUncond
+
+section JoltDistUncond
+open Gjk GjkJolt
+
+/-- the second half of `_distance_loop` returns at most four points, at most three when the loop continues -/
+theorem jolt_stepTail_n {Y P Q : A4 V} {m : Nat} (hm : m ≤ 4) {s : Nat} (hs : s < 16) {prev tolSq : ℝ}
+    {ok : Bool} {sd : V} {vl : ℝ} {out : StepOut ℝ}
+    (h : stepTail Y P Q m prev tolSq ok sd vl s = .ok out) :
+    out.st.nPoints ≤ 4 ∧ (out.gs = .unknown → out.st.nPoints ≤ 3) := by
+  unfold stepTail at h
+  split at h
+  · cases h; exact ⟨hm, fun hu => by cases hu⟩
+  rename_i hne
+  obtain ⟨Y', P', Q', k, hupd, hk, hk3, _⟩ := updateSimplex_spec Y P Q m s hm hs
+  rw [hupd] at h
+  simp only at h
+  have h3 := hk3 hne
+  repeat' split at h
+  all_goals (try cases h)
+  all_goals exact ⟨by show k ≤ 4; omega, fun _ => h3⟩
+
+/-- **index safety of `Y`, `P`, `Q` of `gjk_distance_jolt`, every input.**  No hypothesis on the colliders, the
+support mappings, the tolerance, `max_distance_squared` or the initial array contents: in every reachable loop
+state `n_points < 4` and the three stores at row `n_points` are in range. -/
+theorem jolt_distance_simplex_index_safe_every_input (sA sB : V → V) (tolSq maxD : ℝ) (y0 : A4 V)
+    {st : State ℝ} (hreach : Reach joltSolver sA sB tolSq maxD (gjkInit y0) st) :
+    st.nPoints < 4 ∧ ∃ Y1 P1 Q1, st.Y.set st.nPoints (sA st.sd - sB (-st.sd)) = .ok Y1 ∧
+      st.P.set st.nPoints (sA st.sd) = .ok P1 ∧ st.Q.set st.nPoints (sB (-st.sd)) = .ok Q1 := by
+  suffices hn : st.nPoints ≤ 3 by
+    obtain ⟨Y1, hY⟩ := set_ok st.Y st.nPoints (sA st.sd - sB (-st.sd)) hn
+    obtain ⟨P1, hP⟩ := set_ok st.P st.nPoints (sA st.sd) hn
+    obtain ⟨Q1, hQ⟩ := set_ok st.Q st.nPoints (sB (-st.sd)) hn
+    exact ⟨by omega, Y1, P1, Q1, hY, hP, hQ⟩
+  induction hreach with
+  | init => show 0 ≤ 3; omega
+  | @step st out hreach hstep hunk ih =>
+    rcases Gjk.step_cases hstep with ⟨_, rfl⟩ | ⟨_, Y, P, Q, r, hY, hP, hQ, hr, hcase⟩
+    · cases hunk
+    rcases hcase with ⟨_, ht⟩ | ⟨_, ht⟩
+    · obtain ⟨g, hg, rfl⟩ := IsectJolt.gcp_of_joltSolver hr
+      have hlt := jolt_gcp_set_lt Y (st.nPoints + 1) (by omega) (by omega) st.prevVLenSq hg
+      have h16 : g.set < 16 := lt_of_lt_of_le hlt (two_pow_le_16 (by omega))
+      exact (jolt_stepTail_n (by omega) h16 ht).2 hunk
+    · have h15 := allBits_lt st.nPoints ih
+      exact (jolt_stepTail_n (by omega) (by omega) ht).2 hunk
+
+/-- every hypothesis is an input: the initial state of any run is reachable -/
+example (sA sB : V → V) (tolSq maxD : ℝ) (y0 : A4 V) : (gjkInit (α := ℝ) y0).nPoints < 4 :=
+  (jolt_distance_simplex_index_safe_every_input sA sB tolSq maxD y0 Reach.init).1
+
+end JoltDistUncond
+
+section Libccd
+open IsectLibccd
+
+/-- the checked division of the libccd model fails with `divZero` only -/
+theorem libccd_cdiv_err {x y : ℝ} {e : Err} (h : cdiv x y = .error e) : e = .divZero := by
+  unfold cdiv at h
+  split at h
+  · cases h
+  · cases h; rfl
+
+/-- `point_to_triangle` (libccd copy) fails with `divZero` only -/
+theorem libccd_ptTriDist_err {p a b c : V3 ℝ} {e : Err} (h : ptTriDist p a b c = .error e) :
+    e = .divZero := by
+  unfold ptTriDist at h
+  simp only at h
+  repeat' split at h
+  all_goals (try cases h)
+  all_goals (exact libccd_cdiv_err (by assumption))
+
+/-- `_triangle`: fails with `divZero` only; on `CONTINUE` it returns `n_points ∈ {1, 2, 3}` -/
+theorem libccd_triangle_n {S : Sx ℝ} :
+    (∀ e, triangle S = .error e → e = .divZero) ∧
+    (∀ r, triangle S = .ok r → r.state = .continue_ → 1 ≤ r.n ∧ r.n ≤ 3) := by
+  refine ⟨?_, ?_⟩
+  · intro e h
+    unfold triangle at h
+    simp only at h
+    repeat' split at h
+    all_goals (try cases h)
+    all_goals (exact libccd_ptTriDist_err (by assumption))
+  · intro r h hs
+    unfold triangle triangleAB at h
+    simp only at h
+    repeat' split at h
+    all_goals (try cases h)
+    all_goals (first | (cases hs; done) | simp)
+
+
+/-- `_tetrahedron`: fails with `divZero` only; on `CONTINUE` it returns `n_points ∈ {1, 2, 3}` (it always hands
+over to `_triangle`) -/
+theorem libccd_tetrahedron_n {S : Sx ℝ} :
+    (∀ e, tetrahedron S = .error e → e = .divZero) ∧
+    (∀ r, tetrahedron S = .ok r → r.state = .continue_ → 1 ≤ r.n ∧ r.n ≤ 3) := by
+  refine ⟨?_, ?_⟩
+  · intro e h
+    unfold tetrahedron at h
+    simp only at h
+    repeat' split at h
+    all_goals (try cases h)
+    all_goals first
+      | exact libccd_ptTriDist_err ‹ptTriDist (α := ℝ) _ _ _ _ = Except.error _›
+      | exact libccd_triangle_n.1 _ ‹triangle (α := ℝ) _ = Except.error _›
+      | (rename_i heq
+         repeat' split at heq
+         all_goals (try cases heq)
+         all_goals first
+           | exact libccd_ptTriDist_err ‹ptTriDist (α := ℝ) _ _ _ _ = Except.error _›
+           | (rename_i h2
+              split at h2
+              all_goals (try cases h2)
+              all_goals exact libccd_ptTriDist_err ‹ptTriDist (α := ℝ) _ _ _ _ = Except.error _›))
+  · intro r h hs
+    unfold tetrahedron at h
+    simp only at h
+    repeat' split at h
+    all_goals (try cases h)
+    all_goals first
+      | cases hs
+      | (have ht := ‹triangle (α := ℝ) _ = Except.ok _›
+         have hn := libccd_triangle_n.2 _ ht hs
+         exact hn)
+
+
+/-- `_refine_simplex`, whatever `n_points` it is called with -/
+theorem libccd_refine_n {S : Sx ℝ} {m : Nat} :
+    (∀ e, refineSimplex S m = .error e → e = .divZero) ∧
+    (∀ r, refineSimplex S m = .ok r → r.state = .continue_ → 1 ≤ r.n ∧ r.n ≤ 3) := by
+  unfold refineSimplex
+  split
+  · refine ⟨fun e h => (by cases h), ?_⟩
+    intro r h hs
+    cases h
+    unfold lineSegment at hs ⊢
+    simp only at hs ⊢
+    repeat' split
+    all_goals first
+      | (rw [if_pos ‹_›] at hs; cases hs)
+      | simp
+  · split
+    · exact libccd_triangle_n
+    · exact libccd_tetrahedron_n
+
+/-- one pass of the `for` body of `_gjk` (libccd) from a state with `n_points ≤ 3`: the store of
+`simplex.add_point` (`v[n_points] = …`, the only variable index into the four-row arrays) is in range, the
+only exception the pass can raise is the `ZeroDivisionError` of `point_to_triangle`, and if the loop
+continues the new count is again between 1 and 3 -/
+theorem libccd_step_index_safe (sup : V3 ℝ → V3 ℝ) (S : Sx ℝ) {n : Nat} (dir : V3 ℝ) (hn : n ≤ 3) :
+    (∃ S1, addPoint S n (sup dir) = .ok S1) ∧
+    (∀ e, gjkStep sup S n dir = .error e → e = .divZero) ∧
+    (∀ S' n' dir' br, gjkStep sup S n dir = .ok (none, S', n', dir', br) → 1 ≤ n' ∧ n' ≤ 3) := by
+  have hadd : ∃ S1, addPoint S n (sup dir) = .ok S1 := by
+    interval_cases n <;> exact ⟨_, rfl⟩
+  refine ⟨hadd, ?_, ?_⟩
+  · intro e h
+    unfold gjkStep at h
+    simp only at h
+    obtain ⟨S1, hS1⟩ := hadd
+    rw [hS1] at h
+    simp only at h
+    repeat' split at h
+    all_goals (try cases h)
+    exact libccd_refine_n.1 _ ‹refineSimplex (α := ℝ) _ _ = Except.error _›
+  · intro S' n' dir' br h
+    unfold gjkStep at h
+    simp only at h
+    repeat' split at h
+    all_goals (try cases h)
+    exact libccd_refine_n.2 _ ‹refineSimplex (α := ℝ) _ _ = Except.ok _› ‹_›
+
+/-- **index safety of the simplex arrays of `gjk_intersection_libccd`.**  The compiled kernels
+(`_refine_simplex`, `_line_segment`, `_triangle`, `_tetrahedron`, `_set_point`) address `v`, `v1`, `v2` with
+literal row numbers `0 … 3` only; the one variable index is the store `v[n_points]` of `add_point`.  From
+every state with `n_points ≤ 3` — in particular from the initial one, `n_points = 1` — the loop never runs
+into the model's `indexOOB`: whatever the support mapping, the only exception is `divZero`
+(`point_to_triangle`).  No hypothesis on the colliders. -/
+theorem libccd_loop_index_safe (sup : V3 ℝ → V3 ℝ) :
+    ∀ (k it : Nat) (S : Sx ℝ) (n : Nat) (dir : V3 ℝ), n ≤ 3 →
+      ∀ e, gjkLoop sup k it S n dir = .error e → e = .divZero
+  | 0, _, _, _, _, _, e, h => by simp [gjkLoop] at h
+  | k + 1, it, S, n, dir, hn, e, h => by
+    obtain ⟨_, herr, hnext⟩ := libccd_step_index_safe sup S dir hn
+    unfold gjkLoop at h
+    split at h
+    · cases h; exact herr _ ‹_›
+    · cases h
+    · rename_i S' n' dir' br hstep
+      exact libccd_loop_index_safe sup k (it + 1) S' n' dir' (hnext _ _ _ _ hstep).2 e h
+
+/-- **function level**: `gjk_intersection_libccd` never raises `IndexError`, for all first vertices, support
+mappings and iteration caps -/
+theorem libccd_simplex_index_safe (f1 f2 : V3 ℝ) (sA sB : V3 ℝ → V3 ℝ) (maxIterations : Nat) :
+    gjkIntersectionLibccd f1 f2 sA sB maxIterations ≠ .error .indexOOB := by
+  intro h
+  have := libccd_loop_index_safe _ _ _ _ _ _ (by decide) _ h
+  cases this
+
+/-- the hypothesis `n ≤ 3` holds in the initial state (`n_points = 1` after the first `add_point`); the store
+of the first pass goes to row 1 -/
+example (sup : V3 ℝ → V3 ℝ) (S : Sx ℝ) (dir : V3 ℝ) :
+    ∃ S1, addPoint S 1 (sup dir) = .ok S1 :=
+  (libccd_step_index_safe sup S dir (by decide)).1
+
+end Libccd
+
+section Mpr
+open MprPen
+
+/-- **index safety of the only variable row index of the MPR kernels.**  `mpr.py` addresses the portal arrays
+`v`, `v1`, `v2` (four rows) with literal row numbers, except in the scan of `_contact_position` for the portal
+vertex closest to the origin (`closest = 1; for i in range(2, 4): … closest = i`): the index it ends with is
+1, 2 or 3 and the row returned is that row. -/
+theorem mpr_closest_row_index_safe (p1 p2 p3 : SP ℝ) :
+    ((closestRow p1 p2 p3).2 = 1 ∧ (closestRow p1 p2 p3).1 = p1) ∨
+    ((closestRow p1 p2 p3).2 = 2 ∧ (closestRow p1 p2 p3).1 = p2) ∨
+    ((closestRow p1 p2 p3).2 = 3 ∧ (closestRow p1 p2 p3).1 = p3) := by
+  unfold closestRow
+  simp only
+  split_ifs <;> simp
+
+/-- a concrete portal: rows at squared distances 4, 1, 9 from the origin — the scan ends at row 2 -/
+example : (closestRow (α := ℝ) ⟨⟨2, 0, 0⟩, ⟨0, 0, 0⟩, ⟨0, 0, 0⟩⟩ ⟨⟨0, 1, 0⟩, ⟨0, 0, 0⟩, ⟨0, 0, 0⟩⟩
+    ⟨⟨0, 0, 3⟩, ⟨0, 0, 0⟩, ⟨0, 0, 0⟩⟩).2 = 2 := by
+  unfold closestRow
+  norm_num [V3.dot_def]
+
+end Mpr
 
 end C20
 end D3
